@@ -63,8 +63,11 @@ pub async fn run_case(case: &Case) -> Outc {
     cfg.min_chunk_size = case.min_chunk;
     cfg.max_payload_buffer = case.max_buffer;
     cfg.max_receive = 16;
-    cfg.max_receive_size = 0;
     let mut rng = Rng::for_case(case.seed, "c10b", 0);
+    // mostly without a byte limit on concurrently handled publishes (limits are C12's subject);
+    // with the default limit or a small one a large streamed payload passes through the limiter
+    // chunk by chunk and must still arrive intact
+    cfg.max_receive_size = *rng.pick(&[0usize, 0, 65535, 1024]);
     let mut c = conn::start(&cfg, app.clone()).await;
     let ver = case.role.ver();
     let mut o = Outc { violations: vec![], log: vec![], sig: 0, payload_bytes: 0, reads: 0, writes: 0 };
